@@ -78,6 +78,9 @@ class KernelInterpolation(darsia.Model):
         # Update single components of the interpolation
         if kernel is not None:
             self.update_kernel(kernel)
+            # The kernel matrix depends on the kernel - force its re-assembly
+            if hasattr(self, "Xinv"):
+                del self.Xinv
         if supports is not None:
             if self.supports is None or not append:
                 self.supports = supports.astype(np.float32)
